@@ -42,7 +42,12 @@ static void run_case(const JVal& in) {
         std::vector<uint8_t> sym_e(len + 8, 0xA5), sym_d(len + 8, 0xA5);
         embedded_pairing_lqibe_encrypt(&ct, sym_e.data(), len, &params, &id, hash_fill, scripted_random);
         embedded_pairing_lqibe_decrypt(sym_d.data(), len, &ct, &sk, &id, hash_fill);
-        out.set("id", J(*reinterpret_cast<G1Affine*>(&id.q))); out.set("sk", J(*reinterpret_cast<G1Affine*>(&sk.sq))); out.set("rp", J(*reinterpret_cast<G2Affine*>(&ct.rp)));
+        out.set("id", J(*reinterpret_cast<G1Affine*>(&id.q)));
+        {   // the same derivation with the hash stored in the memory the identity is written to (the C interface states no overlap rule)
+            union { embedded_pairing_lqibe_idhash_t h; embedded_pairing_lqibe_id_t id; } u; memset(&u, 0xA5, sizeof u); u.h = ih;
+            embedded_pairing_lqibe_compute_id_from_hash(&u.id, &u.h);
+            out.set("id_overlap", J(*reinterpret_cast<G1Affine*>(&u.id.q)));
+        } out.set("sk", J(*reinterpret_cast<G1Affine*>(&sk.sq))); out.set("rp", J(*reinterpret_cast<G2Affine*>(&ct.rp)));
         out.set("hash_calls", (long long) g_hash_inputs.size());
         if (g_hash_inputs.size() >= 2) { out.set("enc_in", JVal::bytes(g_hash_inputs[0].data(), g_hash_inputs[0].size())); out.set("dec_in", JVal::bytes(g_hash_inputs[1].data(), g_hash_inputs[1].size())); }
         out.set("sym_e", JVal::bytes(sym_e.data(), len)); out.set("sym_d", JVal::bytes(sym_d.data(), len));
